@@ -54,6 +54,9 @@ def verify(pid, name, src, demo_arg='bin'):
                 a_without = wt + '-clean'
                 sh('git -C %s worktree remove --force %s' % (REPO, a_without))
                 sh('git -C %s worktree add --detach %s main' % (REPO, a_without))
+                if demo_arg == 'srcb':
+                    # the demonstration links against / runs the build of the worktree it is given: build the clean one too
+                    sh('cmake -G Ninja -S %s -B %s/_b -DCMAKE_BUILD_TYPE=Release >/dev/null && ninja -C %s/_b -j12 2>&1 | tail -3' % (a_without, a_without, a_without))
             shell = 'bash' if 'bash' in open(demo).readline() else 'sh'
             rc1, o1 = sh('%s ./demo.sh %s' % (shell, a_with), cwd=scratch, env=env, timeout=1800)
             rc2, o2 = sh('%s ./demo.sh %s' % (shell, a_without), cwd=scratch, env=env, timeout=1800)
